@@ -22,6 +22,39 @@ class Untranslatable(Exception):
     pass
 
 
+def newp_fail_decref(src):
+    """direct_newp: after the cdata exists, is the failing `convert_from_object(cd->c_data, ...)` followed
+    by Py_DECREF(cd) before `return NULL`?  (the statement(s) controlled by that `if`)"""
+    m = re.search(r"^static PyObject \*direct_newp\(.*?^\}", src, re.M | re.S)
+    if not m:
+        raise Untranslatable("direct_newp not found")
+    body = re.sub(r"/\*.*?\*/", " ", m.group(0), flags=re.S)
+    hits = list(re.finditer(r"if \(convert_from_object\(cd->c_data,", body))
+    if len(hits) != 1:
+        raise Untranslatable("direct_newp: %d calls of convert_from_object(cd->c_data, ...)" % len(hits))
+    i, depth = hits[0].end(), 1
+    while depth:                       # end of the condition
+        depth += {"(": 1, ")": -1}.get(body[i], 0)
+        i += 1
+    if depth:
+        raise Untranslatable("direct_newp: condition of the if")
+    rest = body[i:].lstrip()
+    if not rest.startswith("< 0)"):
+        raise Untranslatable("direct_newp: expected '< 0)' after convert_from_object(...)")
+    rest = rest[4:].lstrip()
+    if rest.startswith("{"):
+        end = rest.index("}")
+        controlled = rest[1:end]
+    else:
+        controlled = rest[:rest.index(";") + 1]
+    if "return NULL;" not in controlled:
+        raise Untranslatable("direct_newp: the failed conversion does not return NULL")
+    before_return = controlled[:controlled.index("return NULL;")]
+    if before_return.strip() not in ("", "Py_DECREF(cd);"):
+        raise Untranslatable("direct_newp: unexpected statements on the error path: %r" % before_return)
+    return "Py_DECREF(cd);" in before_return
+
+
 def translate_gen():
     """error paths of direct_from_buffer: (tag, after PyObject_GetBuffer succeeded, label releases)"""
     src = open(os.path.join(vlib.REPO, "src", "c", "_cffi_backend.c")).read()
@@ -54,6 +87,7 @@ def translate_gen():
         paths.append((tag, True, releases[mm.group(1)]))
     if sorted(t for t, _, _ in paths) != [0, 1, 2, 3]:
         raise Untranslatable("failure paths found: %r" % (paths,))
+    decref = newp_fail_decref(src)
     return ("""(* C21/Gen.v — REGENERATED on every run by tools/props/c21.py:regen from
      /repo/src/c/_cffi_backend.c   (direct_from_buffer: every `goto errorN`, whether it is taken after
                                     PyObject_GetBuffer succeeded, and whether label errorN passes
@@ -66,7 +100,11 @@ Import ListNotations.
    tags: 0 = PyObject_GetBuffer / contiguity failed, 1 = buffer too small, 2 = item size 0, 3 = no memory for the cdata *)
 Definition gen_frombuf_paths : list (nat * bool * bool) :=
   [%s].
-""" % "; ".join("(%d, %s, %s)" % (t, cbool(a), cbool(r)) for t, a, r in paths))
+
+(* direct_newp: the error path after a failed initializer conversion releases the freshly made
+   cdata (`if (convert_from_object(...) < 0) { Py_DECREF(cd); return NULL; }`) *)
+Definition gen_newp_fail_decref : bool := %s.
+""" % ("; ".join("(%d, %s, %s)" % (t, cbool(a), cbool(r)) for t, a, r in paths), cbool(decref)))
 
 
 def regen(ctx):
@@ -127,6 +165,10 @@ class Mirror:
             p = self.new("KStructPtr", 1)
             self.struct_of[p] = g
             return [r, g, p], True
+        if t == "ONewFail":
+            return [], False
+        if t == "OAllocNewFail":
+            return [self.new("KRaw", 0), self.new("KGcp", 0)], True
         if t == "OAlias":
             if self.usable(op[1]) and self.kind[op[1]] == "KStructPtr":
                 self.roots[self.struct_of[op[1]]] += 1
@@ -198,6 +240,11 @@ def gen_history(rng, length, template=None):
                 op = [t, m.fresh_addr(), m.fresh_addr(), m.fresh_addr(), rng.random() < 0.8]
             else:
                 op = [t, m.fresh_addr()]
+        elif r < 0.245:
+            if rng.random() < 0.3:
+                op = ["ONewFail", rng.randrange(5)]
+            else:
+                op = ["OAllocNewFail", m.fresh_addr(), m.fresh_addr(), rng.random() < 0.8, rng.randrange(6)]
         elif r < 0.34:
             c = held(cdata)
             if c:
@@ -248,7 +295,7 @@ def gen_history(rng, length, template=None):
 
 
 TEMPLATES = ["handle", "inner-gc", "frombuf", "handle-live-dtor", "inner-gc-released", "two-wrappers",
-             "frombuf-fail"]
+             "frombuf-fail", "new-fail"]
 
 
 def cycle_template(rng, m, name):
@@ -259,6 +306,15 @@ def cycle_template(rng, m, name):
     base = len(m.kind)
     y = base
     ops = [["ONewPy", m.fresh_addr()]]
+    if name == "new-fail":
+        # rejected initialisers, every variant, with and without a free function, around a live allocation
+        ops = [["OAllocNew", m.fresh_addr(), m.fresh_addr(), True]]
+        for v in range(6):
+            ops.append(["OAllocNewFail", m.fresh_addr(), m.fresh_addr(), v != 4, v])
+        for v in range(5):
+            ops.append(["ONewFail", v])
+        ops.append(["ODrop", base + 1])
+        return ops
     if name == "frombuf-fail":
         # failing from_buffer calls before, between and after successful ones on the same source
         f1, f2 = base + 1, base + 2
@@ -329,6 +385,10 @@ def op_literal(op):
         return "%s %d" % (t, op[1])
     if t == "OFromBufferFail":
         return "OFromBufferFail %d %d" % (op[1], op[2])
+    if t == "ONewFail":
+        return "ONewFail"
+    if t == "OAllocNewFail":
+        return "OAllocNewFail %d %d %s" % (op[1], op[2], cbool(op[3]))
     if t in ("OSetRef", "OFromBuffer", "ONewHandle"):
         return "%s %d %d" % (t, op[1], op[2])
     raise ValueError(op)
@@ -353,6 +413,16 @@ def check_history(ops, r):
             has_dtor.add(created[0])
         if op[0] == "OAllocNew" and op[3]:
             has_dtor.add(created[1])
+        if op[0] == "OAllocNewFail" and op[3]:
+            has_dtor.add(created[1])
+        if op[0] in ("ONewFail", "OAllocNewFail"):
+            if results[t].get("unexpected_success"):
+                bad.append("step %d %r: ffi.new was expected to reject the initializer" % (t, op))
+            if results[t].get("ct_refs_delta", 0) != 0:
+                bad.append("step %d %r: %d failing ffi.new calls left %d references to the ctype behind (leaked cdata)"
+                           % (t, op, results[t].get("reps", 0), results[t]["ct_refs_delta"]))
+            if op[0] == "OAllocNewFail" and results[t].get("alloc_calls") != 1:
+                bad.append("step %d %r: alloc() was called %r times" % (t, op, results[t].get("alloc_calls")))
         if op[0] == "OAllocNewStruct" and op[4]:
             has_dtor.add(created[1])
         if len(obs) != len(m.kind):
